@@ -255,7 +255,9 @@ func (g *Gen) Stmts(d, n int, inBlock bool) string {
 			if g.R.Pct(50) {
 				fmt.Fprintf(&b, "// c%d\n", i)
 			} else {
-				fmt.Fprintf(&b, "/* b%d */%s", i, g.pick([]string{"\n", " ", "\n"}))
+				// one-line and multi-line block comments (continuation lines indented or not, an empty line inside, a line of stars)
+				body := g.pick([]string{fmt.Sprintf(" b%d ", i), fmt.Sprintf(" b%d ", i), fmt.Sprintf(" b%d\n   more ", i), fmt.Sprintf(" b%d\n\n\tafter blank\n", i), fmt.Sprintf("\n * b%d\n *\n * x\n ", i), fmt.Sprintf(" b%d\n\t\tdeep\nflush ", i)})
+				fmt.Fprintf(&b, "/*%s*/%s", body, g.pick([]string{"\n", " ", "\n"}))
 			}
 		}
 		b.WriteString(g.Stmt(d, inBlock))
